@@ -365,6 +365,23 @@ pub trait Subject: GuestMemory {
     /// bytes physically available after the region's end (canary/slack)
     fn slack(&self, region: usize) -> usize;
     fn kind(&self) -> &'static str;
+    /// raw view of a region's bytes, independent of the API under test (default: host pointer)
+    fn raw_read(&self, region: usize, len: usize) -> Vec<u8> {
+        let p = self.host(region);
+        // SAFETY: inside the region's backing memory (incl. slack when len says so).
+        (0..len).map(|o| unsafe { p.add(o).read_volatile() }).collect()
+    }
+    fn raw_write(&self, region: usize, off: usize, data: &[u8]) {
+        let p = self.host(region);
+        for (i, b) in data.iter().enumerate() {
+            // SAFETY: inside the region's backing memory.
+            unsafe { p.add(off + i).write_volatile(*b) };
+        }
+    }
+    /// address of region byte `off` as far as alignment is concerned
+    fn align_addr(&self, region: usize, off: usize) -> usize {
+        (self.host(region) as usize).wrapping_add(off)
+    }
 }
 
 impl Subject for MockMem {
@@ -410,14 +427,11 @@ pub fn build_mmap(layout: &Layout) -> Result<GuestMemoryMmap<()>, String> {
 /// Fill every region (and its slack) through the raw host pointer.
 pub fn raw_fill<S: Subject>(m: &S, layout: &Layout, fill: impl Fn(usize, usize) -> u8, slack_byte: u8) {
     for (ri, &(_, l)) in layout.regs.iter().enumerate() {
-        let p = m.host(ri);
-        for o in 0..l as usize {
-            // SAFETY: inside the region's backing memory.
-            unsafe { p.add(o).write_volatile(fill(ri, o)) };
-        }
-        for o in 0..m.slack(ri) {
-            // SAFETY: slack bytes physically exist (page remainder / mock slack).
-            unsafe { p.add(l as usize + o).write_volatile(slack_byte) };
+        let data: Vec<u8> = (0..l as usize).map(|o| fill(ri, o)).collect();
+        m.raw_write(ri, 0, &data);
+        let sl = vec![slack_byte; m.slack(ri)];
+        if !sl.is_empty() {
+            m.raw_write(ri, l as usize, &sl);
         }
     }
 }
@@ -425,10 +439,9 @@ pub fn raw_fill<S: Subject>(m: &S, layout: &Layout, fill: impl Fn(usize, usize) 
 /// Compare the raw contents of every region and its slack with the model.
 pub fn raw_compare<S: Subject>(m: &S, model: &FlatModel, slack_byte: u8) -> Result<(), String> {
     for (ri, &(s, l)) in model.layout.regs.iter().enumerate() {
-        let p = m.host(ri);
+        let now = m.raw_read(ri, l as usize + m.slack(ri));
         for o in 0..l as usize {
-            // SAFETY: inside the region's backing memory.
-            let got = unsafe { p.add(o).read_volatile() };
+            let got = now[o];
             let want = model.data[ri][o];
             if got != want {
                 return Err(format!(
@@ -438,8 +451,7 @@ pub fn raw_compare<S: Subject>(m: &S, model: &FlatModel, slack_byte: u8) -> Resu
             }
         }
         for o in 0..m.slack(ri) {
-            // SAFETY: slack bytes physically exist.
-            let got = unsafe { p.add(l as usize + o).read_volatile() };
+            let got = now[l as usize + o];
             if got != slack_byte {
                 return Err(format!(
                     "byte {} past the end of region {} ({:#x}+{}) was modified: {:#04x}",
